@@ -87,9 +87,13 @@ func (g *zzGroup) ScalarBaseMult(k []byte) (*big.Int, *big.Int) {
 type zzRand struct {
 	calls int
 	last  []byte
+	max   int // when non-zero: runs that would draw more often are outside the harness's bound
 }
 
 func (r *zzRand) Read(p []byte) (int, error) {
+	if r.max > 0 && r.calls >= r.max {
+		vAssume(false)
+	}
 	b := vBytes("rand."+strconv.Itoa(r.calls), len(p), len(p))
 	r.calls++
 	r.last = b
